@@ -21,7 +21,7 @@ func init() {
 		ID:    "C05",
 		Level: "model_checking",
 		Rule: "history tree of all sequences of <=2 operations over all 32 property layouts (a,b in {absent,value,function,method}; _missing in {absent,method}) and of <=3 operations over 8 layouts " +
-			"(thorough: <=3 over 16 layouts, <=4 over 4) where an operation is `v := {L}`, `v := 1.bear({L})`, `v := \"s\".bear({L})`, `v := vJ.bear({L})`, `v := vJ.bro({L})`; in every final state every object is probed with " +
+			"(thorough: <=3 over 16 layouts, <=4 over 4) where an operation is `v := {L}`, `v := 1.bear({L})`, `v := \"s\".bear({L})`, `v := vJ.bear({L})`, `v := vJ.bro({L})`, or takes the own properties of an existing object: `v := vJ.bear(vK)`, `v := vJ.bro(vK)`, `v := Obj.bear(vK)`; in every final state every object is probed with " +
 			"(plus two further families: a property shadowing the built-in S with a non-callable _missing, and objects identified only by a private `_id` so that same-layout objects have identical public properties) " +
 			"every forest of <=2 (thorough 3) objects is probed a second time after 10 operations per object that only read it (merging literals, ** into calls/maps, digest, chain digest, bear/bro, listing, comparing, printing, patch, del); " +
 			"o.n, o.n(9), o['n], which for n in {a,b,c}, proto, ancestors, keys, keys(private?), kindOf? against every object; states = forests, transitions = operations; " +
@@ -47,7 +47,26 @@ type odef struct {
 	// third family: the identifying property is private (`_id`), so objects of the same layout have
 	// identical public properties and differ only in a private one
 	PID bool `json:"pid,omitempty"`
+	// bearof / broof / rootof: the new object takes the own properties of the existing object Src
+	// (vOf.bear(vSrc), vOf.bro(vSrc), Obj.bear(vSrc)) instead of a literal
+	Src int `json:"src,omitempty"`
 }
+
+// def returns the object whose literal defines k's own properties (k itself unless k was made from an existing object).
+func (t tcase) def(k int) int {
+	for k >= 0 {
+		switch t.Objs[k].Op {
+		case "bearof", "broof", "rootof":
+			k = t.Objs[k].Src
+		default:
+			return k
+		}
+	}
+	return k
+}
+
+// own returns the layout of k's own properties.
+func (t tcase) own(k int) odef { return t.Objs[t.def(k)] }
 
 func (o odef) idn() string {
 	if o.PID {
@@ -103,8 +122,12 @@ func (t tcase) parent(k int) int {
 		return -3
 	case "bear":
 		return o.Of
-	case "bro":
+	case "bro", "broof":
 		return t.parent(o.Of)
+	case "bearof":
+		return o.Of
+	case "rootof":
+		return -1
 	}
 	return -1
 }
@@ -187,6 +210,12 @@ func (t tcase) defs() string {
 			fmt.Fprintf(&sb, "v%d := v%d.bear(%s)\n", k, o.Of, l)
 		case "bro":
 			fmt.Fprintf(&sb, "v%d := v%d.bro(%s)\n", k, o.Of, l)
+		case "bearof":
+			fmt.Fprintf(&sb, "v%d := v%d.bear(v%d)\n", k, o.Of, o.Src)
+		case "broof":
+			fmt.Fprintf(&sb, "v%d := v%d.bro(v%d)\n", k, o.Of, o.Src)
+		case "rootof":
+			fmt.Fprintf(&sb, "v%d := Obj.bear(v%d)\n", k, o.Src)
 		}
 	}
 	return sb.String() + t.noise()
@@ -211,7 +240,7 @@ func (t tcase) probes() []probe {
 		for _, name := range names {
 			owner := -1
 			for _, c := range ch {
-				if t.Objs[c].kind(name) != '-' {
+				if t.own(c).kind(name) != '-' {
 					owner = c
 					break
 				}
@@ -219,9 +248,9 @@ func (t tcase) probes() []probe {
 			mowner := -1
 			mIsVal := false
 			for _, c := range ch {
-				if t.Objs[c].Miss || t.Objs[c].MissVal {
+				if t.own(c).Miss || t.own(c).MissVal {
 					mowner = c
-					mIsVal = t.Objs[c].MissVal
+					mIsVal = t.own(c).MissVal
 					break
 				}
 			}
@@ -237,31 +266,31 @@ func (t tcase) probes() []probe {
 					src += "(" + y + ")"
 				}
 				switch {
-				case owner >= 0 && t.Objs[owner].kind(name) == 'v':
-					return probe{src: src, want: fmt.Sprint(val(owner, name)), what: "call/value-property"}
+				case owner >= 0 && t.own(owner).kind(name) == 'v':
+					return probe{src: src, want: fmt.Sprint(val(t.def(owner), name)), what: "call/value-property"}
 				case owner >= 0:
-					tag := string(t.Objs[owner].kind(name)) + name
-					return probe{src: src, want: fmt.Sprintf(`["%s", %d, %d, %s]`, tag, owner, k, y), what: "call/callable-property"}
+					tag := string(t.own(owner).kind(name)) + name
+					return probe{src: src, want: fmt.Sprintf(`["%s", %d, %d, %s]`, tag, t.def(owner), t.def(k), y), what: "call/callable-property"}
 				case mowner >= 0 && mIsVal:
-					return probe{src: src, want: fmt.Sprint(9000 + mowner), what: "call/_missing-non-callable"}
+					return probe{src: src, want: fmt.Sprint(9000 + t.def(mowner)), what: "call/_missing-non-callable"}
 				case mowner >= 0:
-					return probe{src: src, want: fmt.Sprintf(`["miss", %d, %d, "%s", %s]`, mowner, k, name, y), what: "call/_missing"}
+					return probe{src: src, want: fmt.Sprintf(`["miss", %d, %d, "%s", %s]`, t.def(mowner), t.def(k), name, y), what: "call/_missing"}
 				}
 				return probe{src: src, want: "E:NoPropErr: property `" + name + "` is not defined.", what: "call/no-prop", raises: true}
 			}
 			ps = append(ps, call("nil"), call("9"))
 			// indexing by symbol and which agree with the same walk
 			switch {
-			case owner >= 0 && t.Objs[owner].kind(name) == 'v':
-				ps = append(ps, probe{src: v + "['" + name + "]", want: fmt.Sprint(val(owner, name)), what: "index"})
+			case owner >= 0 && t.own(owner).kind(name) == 'v':
+				ps = append(ps, probe{src: v + "['" + name + "]", want: fmt.Sprint(val(t.def(owner), name)), what: "index"})
 			case owner >= 0:
-				tag := string(t.Objs[owner].kind(name)) + name
-				ps = append(ps, probe{src: v + "['" + name + "](" + v + ", 9)", want: fmt.Sprintf(`["%s", %d, %d, 9]`, tag, owner, k), what: "index"})
+				tag := string(t.own(owner).kind(name)) + name
+				ps = append(ps, probe{src: v + "['" + name + "](" + v + ", 9)", want: fmt.Sprintf(`["%s", %d, %d, 9]`, tag, t.def(owner), t.def(k)), what: "index"})
 			default:
 				ps = append(ps, probe{src: v + "['" + name + "]", want: "nil", what: "index"})
 			}
 			if owner >= 0 {
-				ps = append(ps, probe{src: v + ".which('" + name + ")['" + t.idn() + "]", want: fmt.Sprint(owner), what: "which"})
+				ps = append(ps, probe{src: v + ".which('" + name + ")['" + t.idn() + "]", want: fmt.Sprint(t.def(owner)), what: "which"})
 			} else {
 				ps = append(ps, probe{src: v + ".which('" + name + ")", want: "nil", what: "which"})
 			}
@@ -270,7 +299,7 @@ func (t tcase) probes() []probe {
 		// proto
 		switch p := t.parent(k); {
 		case p >= 0:
-			ps = append(ps, probe{src: fmt.Sprintf("%s.proto['%s]", v, t.idn()), want: fmt.Sprint(p), what: "proto"})
+			ps = append(ps, probe{src: fmt.Sprintf("%s.proto['%s]", v, t.idn()), want: fmt.Sprint(t.def(p)), what: "proto"})
 		case p == -1:
 			ps = append(ps, probe{src: v + ".proto == Obj", want: "true", what: "proto"})
 		case p == -2:
@@ -281,32 +310,32 @@ func (t tcase) probes() []probe {
 		// ancestors (user objects only: built-in prototypes have no id and are dropped by the list chain)
 		ids := []string{}
 		for _, c := range ch[1:] {
-			ids = append(ids, fmt.Sprint(c))
+			ids = append(ids, fmt.Sprint(t.def(c)))
 		}
 		ps = append(ps, probe{src: v + ".ancestors@{|x| x['" + t.idn() + "]}", want: "[" + strings.Join(ids, ", ") + "]", what: "ancestors"})
 		last := "BaseObj"
 		ps = append(ps, probe{src: v + ".ancestors[-1] == " + last, want: "true", what: "ancestors-end"})
 		// keys
 		pub := []string{`"id"`}
-		if t.Objs[k].PID {
+		if t.own(k).PID {
 			pub = nil
 		}
-		if t.Objs[k].A != '-' {
+		if t.own(k).A != '-' {
 			pub = append(pub, `"a"`)
 		}
-		if t.Objs[k].B != '-' {
+		if t.own(k).B != '-' {
 			pub = append(pub, `"b"`)
 		}
-		if t.Objs[k].S != 0 && t.Objs[k].S != '-' {
+		if t.own(k).S != 0 && t.own(k).S != '-' {
 			pub = append(pub, `"S"`)
 		}
 		sort.Strings(pub)
 		ps = append(ps, probe{src: v + ".keys", want: "[" + strings.Join(pub, ", ") + "]", what: "keys"})
 		all := append([]string{}, pub...)
-		if t.Objs[k].PID {
+		if t.own(k).PID {
 			all = append(all, `"_id"`)
 		}
-		if t.Objs[k].Miss || t.Objs[k].MissVal {
+		if t.own(k).Miss || t.own(k).MissVal {
 			all = append(all, `"_missing"`)
 		}
 		ps = append(ps, probe{src: v + ".keys(private?: true)", want: "[" + strings.Join(all, ", ") + "]", what: "keys-private"})
@@ -318,11 +347,21 @@ func (t tcase) probes() []probe {
 				// applying bear to a non-object value are outside C18's domain
 				continue
 			}
-			in := false
+			// j itself on the chain, or a chain member made from the own properties of j (== compares own
+			// properties, so such an object equals j); the latter is a don't-care for members rooted in a str/int value
+			in, dontCare := false, false
 			for _, c := range ch {
-				if c == j {
+				switch {
+				case c == j:
 					in = true
+				case t.def(c) == t.def(j) && t.root(c) == -1:
+					in = true
+				case t.def(c) == t.def(j):
+					dontCare = true
 				}
+			}
+			if !in && dontCare {
+				continue
 			}
 			ps = append(ps, probe{src: fmt.Sprintf("%s.kindOf?(v%d)", v, j), want: fmt.Sprint(in), what: "kindOf"})
 		}
@@ -419,6 +458,9 @@ func layouts(set string) []odef {
 	return ls
 }
 
+// fromExisting: also generate bear/bro whose source is an existing object (families 1 and 3)
+var fromExisting = true
+
 // noiseDepth: forests of up to this many objects are also probed after the noise operations
 var noiseDepth = 2
 
@@ -432,7 +474,7 @@ func gen(depth int, ls []odef, emit func(tcase)) {
 			}
 			return
 		}
-		for _, l := range ls {
+		for li, l := range ls {
 			with := func(op string, of int) {
 				o := l
 				o.Op, o.Of = op, of
@@ -446,6 +488,22 @@ func gen(depth int, ls []odef, emit func(tcase)) {
 			for j := range objs {
 				with("bear", j)
 				with("bro", j)
+			}
+			if li == 0 && fromExisting {
+				// own properties taken from an existing object-rooted object (layout irrelevant: once per step)
+				cur := tcase{Objs: objs}
+				for src := range objs {
+					if cur.root(src) != -1 {
+						continue
+					}
+					for j := range objs {
+						o := odef{Op: "bearof", Of: j, Src: src, PID: l.PID}
+						rec(append(objs, o))
+						o.Op = "broof"
+						rec(append(objs, o))
+					}
+					rec(append(objs, odef{Op: "rootof", Src: src, PID: l.PID}))
+				}
 			}
 		}
 	}
